@@ -811,6 +811,65 @@ class FakeFile(_io.BufferedIOBase):
     def __del__(self):
         pass
 
+    @property
+    def raw(self):
+        """the unbuffered layer under a buffered binary handle: it sees what has reached the file, not what is still
+        in this handle's write buffer, and keeps a position of its own"""
+        if self._text:
+            raise AttributeError("raw")
+        v = self.__dict__.get("_rawview")
+        if v is None:
+            v = self.__dict__["_rawview"] = _RawView(self)
+        return v
+
+
+class _RawView:
+    def __init__(self, f):
+        self._f, self._pos = f, f._pos
+
+    @property
+    def name(self):
+        return self._f.name
+
+    @property
+    def closed(self):
+        return self._f._closed
+
+    def readable(self):
+        return True
+
+    def seekable(self):
+        return True
+
+    def tell(self):
+        return self._pos
+
+    def seek(self, pos, whence=0):
+        if whence == 0:
+            self._pos = pos
+        elif whence == 1:
+            self._pos += pos
+        else:
+            self._pos = len(self._f._cur()) + pos
+        return self._pos
+
+    def read(self, n=-1):
+        self._f._chk()
+        buf = self._f._cur()                      # without the pending (unflushed) writes of the buffered layer
+        if n is None or n < 0:
+            n = len(buf) - self._pos
+        d = buf[self._pos:self._pos + n]
+        self._pos += len(d)
+        return d
+
+    def readinto(self, b):
+        d = self.read(len(b))
+        b[:len(d)] = d
+        return len(d)
+
+    def close(self):
+        self._f.close()
+
 
 class _Stat:
     def __init__(self, size, blksize, isdir=False):
